@@ -135,6 +135,83 @@ def check(spec):
             else:
                 ensure(np.shape(got) == np.shape(n) and np.asarray(got).dtype == n.dtype, f"{fn}: shape/dtype {np.shape(got)}/{np.asarray(got).dtype} != numpy {n.shape}/{n.dtype}", "shape-mismatch", **sig)
             A.check_meta(d, got, what=fn, sig=sig)
+        if v == 0:
+            check_siblings(spec, sig)
+
+
+def siblings(spec):
+    """Calls of the same routine that differ from `spec` in ONE scalar parameter (diagonal offset, end point, step, num,
+    endpoint, fill value, dtype, axes, indexing, sparse) - and ones<->zeros: arrays a user builds side by side
+    (2*eye(n) - eye(n, k=1) - eye(n, k=-1)).  Built together with the original in one graph they must all keep their values."""
+    import copy
+
+    fn, a = spec["fn"], spec["args"]
+    out = []
+
+    def var(**ch):
+        s2 = copy.deepcopy(spec)
+        s2["args"].update(ch)
+        out.append(s2)
+
+    if "k" in a:
+        var(k=a["k"] + 1)
+        var(k=-a["k"] if a["k"] else -1)
+    if fn == "arange":
+        if a["form"] >= 2:
+            var(start=a["start"] + 1)
+        if a["form"] >= 3:
+            var(step=a["step"] * 2)
+    if fn == "linspace":
+        var(endpoint=not a["endpoint"])
+        var(start=a["start"] + 1)
+        var(stop=a["stop"] + 1)
+    if fn in ("full", "full_like"):
+        var(fill=a["fill"] + 1 if isinstance(a["fill"], (int, float)) and not isinstance(a["fill"], bool) else 1)
+    if fn in ("ones", "zeros", "ones_like", "zeros_like"):
+        s2 = copy.deepcopy(spec)
+        s2["fn"] = fn.replace("ones", "ZZ").replace("zeros", "ones").replace("ZZ", "zeros")
+        out.append(s2)
+    if fn == "diagonal":
+        var(axis1=a["axis2"], axis2=a["axis1"])
+    if fn == "meshgrid":
+        var(indexing="ij" if a["indexing"] == "xy" else "xy")
+    if fn == "fromfunction":
+        for name in FROMFUNCS:
+            if name != a["func"]:
+                var(func=name)
+                break
+    if "dtype" in a and fn not in ("empty", "empty_like"):
+        var(dtype="f4" if a.get("dtype") != "f4" else "f8")
+    return out[:4]
+
+
+def check_siblings(spec, sig):
+    """Metamorphic: every array computes the same values in one graph with its siblings as it does alone (what the values
+    must be is the main clause's business; a sibling that cannot be built with the original's chunks is left out)."""
+    import dask
+    import dask.array as da
+
+    group = []
+    for s2 in [spec] + siblings(spec):
+        try:
+            with np.errstate(all="ignore"):
+                ds = [d for d in call(da, s2, 0) if isinstance(d, da.Array)]
+                alone = [d.compute(scheduler="sync") for d in ds]
+        except Exception:  # noqa: BLE001 - e.g. explicit chunks that do not fit the sibling's shape
+            if s2 is spec:
+                return
+            continue
+        group.append((s2, ds, alone))
+    if len(group) < 2:
+        return
+    with impl(spec["fn"] + " (siblings in one graph)", **sig), np.errstate(all="ignore"):
+        vals = iter(dask.compute(*[d for _, ds, _ in group for d in ds], scheduler="sync"))
+    for s2, ds, alone in group:
+        for d, want in zip(ds, alone):
+            got = next(vals)
+            if s2["fn"].startswith("empty"):
+                continue
+            A.same_array(got, want, exact=True, what=f"{s2['fn']} {s2['args']} computed in one graph with {spec['fn']} {spec['args']} (vs computed alone)", sig=dict(sig, together=True))
 
 
 def _explicit(spec, v):
